@@ -898,6 +898,8 @@ def select__attribute_kind_test_or_axis(self: XPathToken, context: ta.ContextTyp
     else:
         name = self[0].value
         assert isinstance(name, str)
+        if self[0].symbol == ':':
+            name = get_expanded_name(name, namespaces=self.parser.namespaces)
 
         if self.parser.schema is not None and len(self) == 2:
             assert isinstance(self[1].value, str)
